@@ -142,6 +142,7 @@ def run_chain(lib, chain, pt, fan=False, below=False):
     kind, asec, hp = decode(v0, src)
     a0 = to_nano(asec)
     tr = {"rep": src, "ang": {"neg": a0[0], "w": a0[1], "f": a0[2]}, "fan": fan, "pt": [int(neg), w, f],
+          "ctor": {"on": src in ("dms", "ddm"), "neg": int(bool(neg) and (w > 0 or f > 0)), "w": int(w), "f": int(f)},
           "below": below, "chain": [e[2] for e in steps], "ev": []}
     v = v0
     for (s, d, name) in steps:
@@ -180,6 +181,7 @@ def reject_trace(lib, D, MM, SS, F9, neg):
             raised = True
         evs.append({"a": "Reject", "fn": fn, "hp": [D, MM, SS, F9], "raised": raised})
     return {"rep": "hp", "ang": {"neg": 0, "w": 0, "f": 0}, "fan": True, "pt": [int(neg), D, MM, SS, F9], "below": False,
+            "ctor": {"on": False, "neg": 0, "w": 0, "f": 0},
             "chain": ["Reject"], "ev": evs}
 
 
